@@ -10,7 +10,7 @@ from props import c03
 PROPERTY = 'C01'
 LEVEL = 'exploration'
 RULE = ('G1 programs (every statement/expression form and literal spelling, four layout regimes), the repository '
-        'snippets that calmjs accepts, an enumerated family of nested array literals with holes in every position and the adjacency product of C02 (slot templates x operand classes; every 12th case per quick run), x indentation strings drawn from text(" \\t", max 8) incl. empty. Oracle: '
+        'snippets that calmjs accepts, an enumerated family of nested array literals with holes in every position, programs made long by one sibling list of 1200 (thorough: 5000) statements / declarations / arguments / parameters / properties / elements / clauses / operands, and the adjacency product of C02 (slot templates x operand classes; every 12th case per quick run), x indentation strings drawn from text(" \\t", max 8) incl. empty. Oracle: '
         'o = pretty_print(parse(src), ind); (a) calmjs re-parses o to the same canonical tree; (b) the independent '
         'reference parser R1 accepts o and reads the same tree; (c) pretty_print(parse(o), ind) == o byte for byte; (d) histories: a family of 330 member-access / sign / division programs over every literal spelling is printed in one process in drawn orders (forwards, backwards, again), each output judged by (a)-(c) and required to equal the first output for that program. '
         'Sources calmjs rejects are outside the quantifier, and sources on which calmjs and the reference parser already disagree belong to C03 (both counted, not judged). non-trivial = tree with >= 4 node kinds and '
@@ -156,6 +156,8 @@ def plan(tier, seed):
     shards.append({'name': 'corpus', 'kind': 'corpus'})
     for k in range(32):
         shards.append({'name': 'adj-%d' % k, 'kind': 'adj', 'k': k, 'of': 32, 'stride': 12 if tier == 'quick' else 1})
+    for n in ([1200] if tier == 'quick' else [1200, 5000]):
+        shards.append({'name': 'long-%d' % n, 'kind': 'long', 'size': n})
     for k in range(4 if tier == 'quick' else 16):
         shards.append({'name': 'history-%d' % k, 'kind': 'history', 'n': 3 if tier == 'quick' else 12,
                        'hseed': seed * 1000 + 500 + k})
@@ -178,7 +180,18 @@ def run_shard(shard):
         acc.case((src, indent), nt, {'source': src, 'indent': indent, 'output': info['output'] if info else None})
         acc.label('indent_%s' % ('empty' if indent == '' else 'tab' if set(indent) == {'\t'} else
                                  'space' if set(indent) == {' '} else 'mixed'))
-    if shard['kind'] == 'history':
+    if shard['kind'] == 'long':
+        # size through the length of sibling lists, not through nesting
+        import sys
+        limit = sys.getrecursionlimit()
+        sys.setrecursionlimit(1000)   # the interpreter's default, which the harness raises elsewhere
+        try:
+            for name, src in gen_program.long_lists(shard['size']):
+                one(src, '  ', 'long_' + name)
+                acc.label('long_list_' + name)
+        finally:
+            sys.setrecursionlimit(limit)
+    elif shard['kind'] == 'history':
         def hist_one(src, indent, info):
             acc.case((src, indent), False, None)
             acc.label('history_print')
